@@ -151,10 +151,21 @@ func checkInstallStaging(c *core.Ctx) {
 		case name == "os.Remove":
 			evs = append(evs, ev{"remove", call.Pos(), call.Args[0]})
 		case name == "os.Rename" && len(call.Args) == 2:
-			evs = append(evs, ev{"rename", call.Pos(), call.Args[0]})
-			renameDst = call.Args[1]
-			if !derivesFrom(fn, call.Args[0], staging, 0) {
-				bad = fmt.Sprintf("%s: the rename does not move the staging directory (%s)", p.Pos(call.Pos()), core.ExprStr(call.Args[0]))
+			srcStaged, dstStaged := derivesFrom(fn, call.Args[0], staging, 0), derivesFrom(fn, call.Args[1], staging, 0)
+			switch {
+			case srcStaged && !dstStaged:
+				// staging → final place (also: the moved-away previous copy back into place when that fails)
+				if renameDst == nil {
+					evs = append(evs, ev{"rename", call.Pos(), call.Args[0]})
+					renameDst = call.Args[1]
+				} else if core.ExprStr(call.Args[1]) != core.ExprStr(renameDst) {
+					bad = fmt.Sprintf("%s: a second directory (%s) is moved out of the staging area", p.Pos(call.Pos()), core.ExprStr(call.Args[1]))
+				}
+			case !srcStaged && dstStaged:
+				// a visible directory is moved away under a name the directory readers skip
+				evs = append(evs, ev{"moveaway", call.Pos(), call.Args[0]})
+			default:
+				bad = fmt.Sprintf("%s: the rename does not move the staging directory (%s → %s)", p.Pos(call.Pos()), core.ExprStr(call.Args[0]), core.ExprStr(call.Args[1]))
 			}
 		case strings.HasSuffix(name, "registerFileExtensions"):
 			evs = append(evs, ev{"register", call.Pos(), nil})
@@ -183,9 +194,15 @@ func checkInstallStaging(c *core.Ctx) {
 	if r := idx("remove"); r < 0 || r > ren {
 		order = "the archive must be removed before the rename (or it ships inside the version directory)"
 	}
-	// RemoveAll(dst) directly before the rename
-	if ren == 0 || evs[ren-1].what != "removeall" || core.ExprStr(evs[ren-1].arg) != core.ExprStr(renameDst) {
-		order = fmt.Sprintf("removing a previous copy of %s must directly precede the rename (nothing that can fail for long, like a download, in between)", core.ExprStr(renameDst))
+	// a previous copy of the version is moved away (one rename, atomic) directly before the new one is moved in;
+	// deleting it in place takes many steps, and a crash among them leaves a listed version without its binary
+	if ren == 0 || evs[ren-1].what != "moveaway" || core.ExprStr(evs[ren-1].arg) != core.ExprStr(renameDst) {
+		order = fmt.Sprintf("a previous copy of %s must be moved out of the way, under a staging name, directly before the rename (nothing that can fail for long, like a download, in between)", core.ExprStr(renameDst))
+	}
+	for _, e := range evs {
+		if e.what == "removeall" && !derivesFrom(fn, e.arg, staging, 0) {
+			order = fmt.Sprintf("%s: os.RemoveAll(%s) deletes a directory the readers can see, file by file: an interruption leaves a half deleted version that is still listed — move it away with one rename and delete it afterwards", p.Pos(e.pos), core.ExprStr(e.arg))
+		}
 	}
 	// nothing is created at or below the destination
 	for _, e := range evs {
@@ -196,7 +213,7 @@ func checkInstallStaging(c *core.Ctx) {
 	if reg := idx("register"); reg >= 0 && reg < ren {
 		order = "file extensions are registered before the plugin is in place: a crash in between leaves extensions pointing at a plugin that is not installed"
 	}
-	c.Decide(order == "", "STAGE", key+"/rename", evs[ren].pos, len(evs), "unpack → remove archive → remove previous copy → rename → register extensions", order)
+	c.Decide(order == "", "STAGE", key+"/rename", evs[ren].pos, len(evs), "unpack → remove archive → move previous copy away → rename → register extensions → delete the previous copy", order)
 }
 
 // deferParent reports whether call is the call of a defer statement.
